@@ -35,7 +35,7 @@ STRENGTHENED = {
     "C12/B": "oracle: an altered / re-typed delivery is never accepted",
     "C13/B": "Poplar1 unshard shapes (empty, mismatched kind / length)",
     "C14/B": "convenience-constructor pairs (serial vs multithreaded instance of every type)",
-    "C15/B": "L1BoundSum / SumVec noise with bounds that need the top bit",
+    "C15/B": "L1BoundSum / SumVec noise with bounds that need the top bit; later an oracle of its own: noise of scale >= 2^63 is further than 2^32 from zero in some coordinate",
     "C15/D": "privacy budgets 2^-70 and 3/(2^128-1) (scale above the modulus); a failed add_noise is an oracle failure and a correspondence case (it was only counted)",
     "C16/B": "aggregator ids +256, +512, +2^32",
     "C17/A": "structured randomness: all-zero, all-ones, one zero block, equal blocks",
@@ -48,6 +48,24 @@ STRENGTHENED = {
     "C17/C": "single-aggregator instances; the leader share's length is an oracle of its own",
     "C18/C": "application-sized contexts (55 to 1000 bytes) whose substitute differs in the last byte, in Prio3 and Poplar1; recorder oracle: two XOF invocations with different (seed, dst, binder) must not give the same stream",
     "C18/D": "binding of Prio3 over XofHmacSha256Aes128 through the generic constructor (oracle only)",
+    "C01/E": "Prio3 types with joint randomness (Histogram, SumVec with 2 proofs, MultihotCountVec, L1BoundSum) driven through the ping-pong topology and compared with the broadcast execution (first missed: only Prio3Sum, which has no joint randomness, went through ping-pong)",
+    "C03/D": "planted rejections: the recording XOF replaces every 3rd / 5th 8-byte block of EVERY stream by a value the rejection sampler refuses, so the streams verify_init fast-forwards through contain rejected draws (added on reading this change; a natural rejection needs a 2^-32 event)",
+    "C04/D": "shares of length 0 and 2, and a round-two share against an empty one, offered to the combiner (first missed: only well-shaped vectors were altered)",
+    "C05/D": "vectors whose only defect is one non-bit entry at the edges (solved from the linear relation) as FLP-level invalid inputs, and L1BoundSum / MultihotCountVec instances whose chunk length divides the vector length but not the encoded length (first caught only as a model / code disagreement)",
+    "C08/D": "decoder roles 255, 256, 257, 256+n, 2^32, usize::MAX for Prio3 input shares and verify states (first missed: only the role n)",
+    "C09/D": "Field255 section: arithmetic, byte and u64 conversions against arithmetic modulo 2^255-19 on a lattice (2^64, 2^128, 2^192 boundaries) and random values; non-canonical encodings refused by both byte conversions (first missed: Field255 was outside the C09 harness)",
+    "C10/D": "Mul::eval_poly / ParallelSum::eval_poly into used (non-zero) output buffers with zero operands (first missed: the hook always passed a zeroed buffer)",
+    "C11/D": "reads through the word interface (next_u32 / next_u64) interleaved with byte reads on every XOF stream (first missed: only fill_bytes)",
+    "C12/E": "delivery kind 'p': the embedded payload followed by one extra byte (outer message still decodes), in every script position; padded round-two shares for Poplar1 (first missed)",
+    "C13/E": "Aggregator::aggregate with a wrong-shape share at every position of the batch, Prio3 and Poplar1 (first missed: shapes were only offered to merge / accumulate)",
+    "C14/E": "constructor pairs with chunk length at and above the vector length and chunk length 1 (first missed)",
+    "C17/D": "encodings longer than one 256-element block (Histogram 600, SumVec 300) (first missed)",
+    "C18/E": "single-candidate aggregation parameters in the Poplar1 binding runs (first missed: always two candidates)",
+    "C18/F": "algorithm identifiers differing in bit 0, 9, 16, 20, 27, 31 (first missed: only bit 0)",
+    "C11/C": "(caught at once by the correspondence; an oracle of its own was added: the outputs across a field switch are the successive accepted chunks of the tape)",
+    "C16/D": "(caught at once by the correspondence; an oracle of its own was added: Prio2::new accepts exactly the dimensions with 2*next_power_of_two(n+1) <= 2^20)",
+    "C20/D": "deep histories: one to three candidates per level over 200-bit inputs with steps landing on and around levels 31/32, 63/64, 127/128 — honest step, a candidate leaving its ancestor, an unrelated candidate, a repeated level (first missed: histories stopped at 12 bits)",
+    "C19/D": "corpus of nonces whose first TWO draws are 2^20-th roots of unity (found by `harness search-c19`, 2^24 trials each), replayed at dimension 2^19-1 (first missed: a double rejection does not occur by chance)",
 }
 
 
